@@ -744,10 +744,18 @@ let orc_net args lib impl =
         match parse_request raw with
         | Some ((uri, host), acc) -> no_crlf_sp uri && no_crlf host
         | None -> false) ilog in
+    (* the Accept value is one of the two constants of the program, and says which kind of request it was: webfinger lookups ask
+       for /.well-known/webfinger, everything else is an ActivityPub fetch *)
+    let bytes_of s = List.map (fun c -> n_of_int (Char.code c)) (List.init (String.length s) (String.get s)) in
+    let as_accept = bytes_of "application/activity+json,application/ld+json; profile=\"https://www.w3.org/ns/activitystreams\"" in
+    let accept_ok = List.for_all (fun (_, raw) ->
+        match parse_request raw with
+        | Some ((_, _), acc) -> acc = as_accept || acc = jrd_accept
+        | None -> false) ilog in
     let no_nil_doc = List.for_all (fun p -> p <> [3]) !proj in
     let transparent = List.for_all2 (fun p c -> c = [-1] || p = c) !proj !cold_outs in
     [("results_equal_model", results_equal); ("requests_equal_model", log_equal);
-     ("request_shape", shape_ok); ("no_plaintext_connection", canary = 0); ("no_nil_document", no_nil_doc); ("cache_transparent", transparent)]
+     ("request_shape", shape_ok); ("accept_known", accept_ok); ("no_plaintext_connection", canary = 0); ("no_nil_document", no_nil_doc); ("cache_transparent", transparent)]
   with _ -> [("well_formed_result", false)]
 
 (* ---------------- items built from arbitrary JSON (C06, C01, C14): oracles only ---------------- *)
